@@ -44,7 +44,8 @@ def integrate_column(y, x=None, axis=0):
     """Integrate array along an arbitrary axis.
 
     Note:
-        This function is just a wrapper for :func:`numpy.trapz`.
+        This function is just a wrapper for :func:`numpy.trapezoid`
+        (called ``numpy.trapz`` before numpy 2.0).
 
     Parameters:
         y (ndarray): Data array.
@@ -63,7 +64,11 @@ def integrate_column(y, x=None, axis=0):
         >>> integrate_column(y, x)
         2.0
     """
-    return np.trapz(y, x, axis=axis)
+    # ``numpy.trapz`` was renamed to ``numpy.trapezoid`` in numpy 2.0
+    # and removed later on.
+    trapezoid = getattr(np, 'trapezoid', None) or np.trapz
+
+    return trapezoid(y, x, axis=axis)
 
 
 def interpolate_halflevels(x, axis=0):
